@@ -11,4 +11,5 @@ tools/build_overlay.sh conc_race || exit 1
 # informational self-checks of the machinery (never fail the setup: they are timing-tolerant but not timing-free)
 tools/selftest.sh 2>&1 | tail -12
 bin/conc conform - 2>&1 | tail -3
+bin/conc_race conform-race - 2>&1 | tail -2
 echo "setup ok"
